@@ -301,6 +301,9 @@ pub fn plan(tier: Tier) -> Plan {
     pair::<Covariance>(&mut checks, q, vec![(1., 5.), (2., 4.1), (-3., 0.1)], "corr3");
     pair::<Covariance>(&mut checks, q, vec![(1e9 - 3., -1e6 + 0.5), (1e9 + 4., -1e6 - 2.), (1e9 + 13., -1e6)], "off3");
     checks.push(Box::new(IdentityCheck::<HistChunk<H2>> { alpha_name: "samples".into(), alpha: vec![-1., 0., 0.5, 1., 1.5, 2., f64::NAN], rounds: if q { 3 } else { 4 }, max_obs: if q { 4 } else { 5 }, pair_cap: 700, _t: Default::default() }));
+    // odd numbers of bins (a remainder bin when bins are processed in pairs)
+    checks.push(Box::new(IdentityCheck::<HistChunk<H1>> { alpha_name: "samples".into(), alpha: vec![-1., 0., 0.5, 1.], rounds: 3, max_obs: 4, pair_cap: 700, _t: Default::default() }));
+    checks.push(Box::new(IdentityCheck::<HistChunk<H3>> { alpha_name: "samples".into(), alpha: vec![0., 0.5, 1.5, 2.5, 3.], rounds: 3, max_obs: 4, pair_cap: 700, _t: Default::default() }));
     checks.push(Box::new(IdentityCheck::<HistChunk<average::Histogram10>> { alpha_name: "samples".into(), alpha: vec![0., 0.5, 4.5, 9.5, 10.], rounds: 3, max_obs: 4, pair_cap: 700, _t: Default::default() }));
     Plan {
         rule: "for every Merge type: the set of states reachable by rounds of add(x) and merge(a, b) over all pairs of already reachable states (bounded by total observations), deduplicated by Debug string; for every reachable a: a.merge(new()) and new().merge(a) must leave every accessor bit-for-bit equal to a's (all NaNs equal), the argument's Debug string must be unchanged, is_empty <=> len == 0; for every pair (a, b) of reachable states up to the cap: merged len = len a + len b exactly; non-trivial = states holding at least one observation".into(),
